@@ -309,7 +309,8 @@ def _flags_of(where, spec, obj):
             fl.update(G.describe(obj.index.get_level_values(j)))
         fl.add("nlevels:%d" % obj.index.nlevels)
         if obj.index.nlevels > 1:
-            if len(set(names)) != len(names):
+            named = [n for n in names if n is not None]
+            if len(set(named)) != len(named):
                 fl.add("repeated-level-names")
             if any(n is None for n in names):
                 fl.add("unnamed-level")
@@ -394,8 +395,9 @@ def one_case(run, label, spec, collect=None):
         lv = spec["index"]["levels"]
         names = [l["name"] for l in lv]
         run.count("index:" + ("single" if len(lv) == 1 else "multi") +
-                  (":repeated-names" if len(lv) > 1 and
-                   len(set(names)) < len(names) else "") +
+                  (":repeated-names" if len(lv) > 1 and len(
+                      {n for n in names if n is not None}) < len(
+                      [n for n in names if n is not None]) else "") +
                   (":unnamed" if any(n is None for n in names) else ""))
         for l in lv:
             run.count("index-class:" + l["col"]["cls"])
